@@ -235,3 +235,35 @@ pub fn total_bytes(sc: &PairScenario, d: usize) -> u64 {
 pub fn total_packets(sc: &PairScenario, d: usize) -> u64 {
     sc.ticks.iter().map(|t| t.acts[d].sends.len() as u64).sum()
 }
+
+/// Bulk shape: 4096-entry windows, high ceilings, streams of tiny packets on a few channels with rare
+/// Reliable ones (so parent leads grow into the hundreds), acks a few ticks behind. `faults` selects the
+/// scripted link faults of the base scenario (thinned in half of the cases) or a loss-free network.
+pub fn bulk_scenario_strategy(max_per_tick: usize, max_ticks: usize, faults: bool, tail: bool) -> BoxedStrategy<PairScenario> {
+    let bulk_send = (prop_oneof![6 => 0u8..4, 1 => 0u8..64], prop_oneof![40 => Just(1u8), 40 => Just(2u8), 10 => Just(0u8), 1 => Just(3u8)], 4u32..48).prop_map(|(ch, mode, size)| SendSpec { ch, mode, size });
+    let bulk_tick = (prop_oneof![Just(2_000u64), Just(5_000u64), Just(16_000u64)], proptest::collection::vec(bulk_send, 20..max_per_tick.max(21)), any::<bool>()).prop_map(|(dt_us, sends, rev)| {
+        let a = EpAct { step: true, sends, flushes: 1 };
+        let b = EpAct { step: true, sends: Vec::new(), flushes: 1 };
+        Tick { dt_us, acts: if rev { [b, a] } else { [a, b] } }
+    });
+    let q = GenParams { small_windows: false, tight_alloc: false, max_ticks: 2, max_latency_us: 60_000, faults, reorder: faults, tail, ..GenParams::default() };
+    (scenario_strategy(&q), proptest::collection::vec(bulk_tick, 20..max_ticks.max(21)), any::<bool>())
+        .prop_map(|(mut sc, ticks, thin)| {
+            sc.ticks = ticks;
+            for d in sc.dirs.iter_mut() {
+                d.bw_limit = d.bw_limit.max(5_000_000);
+            }
+            if thin {
+                for l in sc.links.iter_mut() {
+                    for (k, f) in l.fates.iter_mut().enumerate() {
+                        if k % 3 != 0 {
+                            *f = Fate::Deliver(0);
+                        }
+                    }
+                }
+            }
+            sc.normalize();
+            sc
+        })
+        .boxed()
+}
